@@ -62,7 +62,7 @@ where
     //      formatting write control.
     let mantissa = float.mantissa();
     let radix = format.mantissa_radix();
-    let (mantissa, mantissa_bits) = truncate_and_round(mantissa, radix, options);
+    let (mantissa, mantissa_bits) = truncate_and_round_digits(mantissa, radix, float.exponent(), options);
 
     // See if we should use an exponent if the number was represented
     // in scientific notation, AKA, `I.FFFF^EEE`. If the exponent is above
@@ -718,6 +718,10 @@ pub fn scale_sci_exp(sci_exp: i32, bits_per_digit: i32) -> i32 {
 
 /// Round mantissa to the nearest value, returning only the number
 /// of significant digits. Also returns the number of bits of the mantissa.
+///
+/// This truncates by bits from the most-significant bit, which only matches
+/// the digits written for radix 2: the writers use
+/// [`truncate_and_round_digits`].
 #[inline(always)]
 pub fn truncate_and_round<M>(mantissa: M, radix: u32, options: &Options) -> (M, usize)
 where
@@ -755,9 +759,71 @@ where
             let initial_bits = shifted_mantissa.leading_zeros();
             shifted_mantissa += as_cast((above_halfway || (is_odd & is_halfway)) as u32);
             let final_bits = shifted_mantissa.leading_zeros();
-            mantissa_bits += (final_bits - initial_bits) as usize;
+            // NOTE: A carry into a new bit has 1 fewer leading zeros.
+            mantissa_bits += (initial_bits - final_bits) as usize;
         }
     }
 
     (shifted_mantissa, mantissa_bits)
+}
+
+/// Round mantissa to the nearest value with at most the maximum number
+/// of significant digits. Also returns the number of bits of the mantissa.
+///
+/// The digits written are those of `mantissa << calculate_shl(exp, ..)`,
+/// so the digit boundaries depend on the exponent: the leading digit may
+/// have less than `bits_per_digit` bits. The truncated mantissa keeps its
+/// scale (the truncated bits are zeroed, and the resulting trailing zero
+/// digits are trimmed when writing the digits).
+#[inline(always)]
+pub fn truncate_and_round_digits<M>(
+    mantissa: M,
+    radix: u32,
+    exp: i32,
+    options: &Options,
+) -> (M, usize)
+where
+    M: UnsignedInteger,
+{
+    let mut mantissa_bits = significant_bits(mantissa) as usize;
+    let bits_per_digit = fast_log2(radix) as usize;
+
+    // Get the number of max digits, and then calculate if we need to round.
+    let max_digits = match options.max_significant_digits() {
+        Some(digits) if mantissa_bits != 0 => digits.get(),
+        _ => return (mantissa, mantissa_bits),
+    };
+    let shl = calculate_shl(exp, bits_per_digit as i32) as usize;
+    let leading_bits = (mantissa_bits + shl - 1) % bits_per_digit + 1;
+    let max_bits = (max_digits - 1).saturating_mul(bits_per_digit).saturating_add(leading_bits);
+    let mut truncated = mantissa;
+
+    // Need to truncate the number of significant digits.
+    if max_bits < mantissa_bits {
+        let shr = (mantissa_bits - max_bits) as i32;
+        let mask = (M::ONE << shr) - M::ONE;
+        truncated = mantissa & !mask;
+
+        // We need to round-nearest, tie-even, so we need to handle
+        // the truncation **here**. If the representation is above
+        // halfway at all, we need to round up, even if 1 bit.
+        if options.round_mode() == RoundMode::Round {
+            let halfway = M::ONE << (shr - 1);
+            let above_halfway = (mantissa & mask) > halfway;
+            let is_halfway = (mantissa & mask) == halfway;
+            let is_odd = (mantissa >> shr) & M::ONE == M::ONE;
+
+            // Round-up and calculate if we carry over 1-bit.
+            // The built-in ctlz is very fast, so use that.
+            // Add 1 to the mantissa bits if we carry.
+            if above_halfway || (is_odd & is_halfway) {
+                let initial_bits = truncated.leading_zeros();
+                truncated += M::ONE << shr;
+                let final_bits = truncated.leading_zeros();
+                mantissa_bits += (initial_bits - final_bits) as usize;
+            }
+        }
+    }
+
+    (truncated, mantissa_bits)
 }
